@@ -35,6 +35,16 @@ impl Config {
         Ok(())
     }
 
+    /// Remove the stored metadata, so that whatever is in the index
+    /// directory is not taken to be current.
+    pub fn remove_meta(&self) -> Result<()> {
+        match fs::remove_file(&self.meta_path) {
+            Ok(()) => Ok(()),
+            Err(e) if e.kind() == std::io::ErrorKind::NotFound => Ok(()),
+            Err(e) => Err(e.into()),
+        }
+    }
+
     /// Iterate over available asset names.
     pub fn assets(&self) -> impl Iterator<Item = Cow<'static, str>> {
         Asset::iter()
